@@ -335,10 +335,10 @@ func (h *hist) closeInterval(di *disInt, to int64) {
 		pokes = append(pokes, float64(t-di.from)/1e6)
 	}
 	if len(late) > 0 && di.removed {
-		h.r.Violation("C03/removed/probe-while-not-in-server-list/"+di.class,
-			fmt.Sprintf("server is not in the latest object's server list (sync returned), yet its stub logged %d /healthz probe(s) %v ms after that sync returned and before it was listed again (class %s; probes within the first %v after the sync are not counted)",
-				len(late), late, di.class, settle),
-			map[string]interface{}{"history": h.id, "stub": di.stub, "class": di.class, "probe_ms_after_sync": late, "all_probes_ms_relative_to_sync": all, "trigger_calls_ms_after_sync": pokes, "interval_ms": float64(to-di.from) / 1e6, "model": h.m.clone()})
+		// NOT judged here: C03's probe clause is about DISABLED endpoints only; that probing of a REMOVED endpoint stops
+		// is C15's clause. Probes to servers that are not in the latest list are recorded as an observation; TRAFFIC to
+		// them is judged by the request oracle.
+		h.r.Count("observation_probes_to_servers_not_in_the_latest_list_"+di.class, len(late))
 	} else if len(late) > 0 {
 		h.r.Violation("C03/disabled/probe-while-disabled/"+di.class,
 			fmt.Sprintf("endpoint was marked disabled (sync returned), yet its stub logged %d /healthz probe(s) %v ms after the disabling sync returned and before it was enabled again (class %s; probes within the first %v after the sync are not counted)",
@@ -1001,7 +1001,7 @@ func TestCheck(t *testing.T) {
 			"Oracle by request id over the stub logs: stable -> the receiving stub is a server, in the subset, enabled and believed healthy; racing -> pickable before or after the change; " +
 			"at most one stub, once; empty pickable set -> 503 and nothing forwarded; disabled endpoints: no /healthz probe between (disabling sync returned + 500 ms) and the enabling sync " +
 			"although TriggerHealthCheck is called on the retained EndpointInfo (some intervals span > 5.5 s to cover the ticker and the probe timeout; extra scenarios disable an endpoint " +
-			"while its probe hangs); the same probe clause for servers that are no longer in the latest object's list. Partially failing updates: one object removes a server and adds an " +
+			"while its probe hangs); probes to servers that are no longer in the latest object's list are only counted (C15's clause). Partially failing updates: one object removes a server and adds an " +
 			"endpoint string for which no client can be built (sync fails half-way, requeue re-delivered 3 times): the pickable set is the latest object's server list, the next step drops " +
 			"the bad entry. Racing scenarios: goroutines call TriggerHealthCheck continuously while the spec alternates enabled/disabled for a fixed number of iterations; after every " +
 			"disabling sync the endpoint must not be ready / receive a request / (after the settle) a probe. Non-trivial = some stub of the history may not be picked; distinct = hash(state, previous state when racing, policy, phase).")
@@ -1055,6 +1055,5 @@ func TestCheck(t *testing.T) {
 		r.Require(r.Counter("hung_probe_scenarios") >= int64(hung*8/10), "too few hung-probe scenarios completed")
 		r.Require(r.Counter("racing_disable_iterations") >= int64(racers*racerIters*8/10), "too few disable-while-recording-probe-results iterations")
 		r.Require(r.Counter("partially_failing_updates") >= int64(tierN(r, 10, 150)), "too few partially failing updates (server removed + unbuildable server added)")
-		r.Require(r.Counter("removed_intervals_judged") >= int64(tierN(r, 20, 300)), "too few not-in-server-list intervals judged for probes")
 	})
 }
